@@ -57,6 +57,11 @@ type snapCase struct {
 	Names      []string `json:"names"`
 	Ops        []hOp    `json:"ops"`
 	TornPct    int      `json:"torn_pct,omitempty"`
+	// Legacy (C11): the file the first life finds already holds lines that
+	// replay skips - a "coordinate:" record as older versions wrote it (1), and
+	// also a line of an unknown kind (2). They carry no state, and they stay in
+	// the file until the first compaction.
+	Legacy int `json:"legacy,omitempty"`
 	RealFS     bool     `json:"real_fs,omitempty"`
 	SerfLayer  bool     `json:"serf_layer,omitempty"`
 	// StallLeave: the graceful leave is issued while the snapshot goroutine is
